@@ -122,6 +122,7 @@ struct JEntry
 struct World;
 World* g_world = nullptr;
 
+bool g_nonstd_sink_throws = false; // a sink threw something that is not a std::exception in this case (label)
 struct ThrowPlan
 {
   std::set<long> write_calls; // 1-based indices of write_log calls that throw
@@ -175,6 +176,8 @@ public:
     if (by_id || plan.write_calls.count(writes))
     {
       journal_push(JEntry{_idx, 'X', std::string{logger}, std::string{tid}, ts, static_cast<int>(lvl), std::string{msg}, {}});
+      // every third planned failure (by call index) is not derived from std::exception: the backend's catch-all branches
+      if (!by_id && writes % 3 == 0) { g_nonstd_sink_throws = true; throw 42; }
       throw std::runtime_error("injected write_log failure in sink " + std::to_string(_idx));
     }
     JEntry e{_idx, 'W', std::string{logger}, std::string{tid}, ts, static_cast<int>(lvl), std::string{msg}, std::string{stmt}, {}};
@@ -347,7 +350,11 @@ void journal_push(JEntry e)
 void RecSink::flush_sink()
 {
   ++flushes;
-  if (plan.flush_calls.count(flushes)) throw std::runtime_error("injected flush_sink failure in sink " + std::to_string(_idx));
+  if (plan.flush_calls.count(flushes))
+  {
+    if (flushes % 3 == 0) { g_nonstd_sink_throws = true; throw NonStdError{7}; }
+    throw std::runtime_error("injected flush_sink failure in sink " + std::to_string(_idx));
+  }
   if (!g_world) return;
   // collapse runs of flushes (idle polls flush every time)
   auto& j = g_world->journal;
